@@ -1,6 +1,7 @@
 package checks
 
 import (
+	"bytes"
 	"fmt"
 	"strings"
 
@@ -80,6 +81,38 @@ func c03FileType(c *lib.Ctx, idx uint64) {
 					c.Violation(b, "file type %d: accessor %s returned a container", v, lib.FileTypes[i].Name)
 				}
 			}
+		}
+		// The same member inside a chain: DecodeChained must report it, in whatever position it
+		// sits, and must not hand out containers for it.
+		good := lib.NewPlanGen(lib.NewRand("C03.filetypes.good", idx), lib.GenOpts{FileType: lib.FileTypes[int(idx)%len(lib.FileTypes)].Type, Records: 4, Locals: 2, Serial: true, Mesgs: []uint16{49, 20, 23}}).Fill().Bytes()
+		for k, chain := range [][]byte{
+			append(append([]byte{}, good...), b...),
+			append(append([]byte{}, b...), good...),
+			append(append(append([]byte{}, good...), b...), good...),
+		} {
+			var files []*fit.File
+			var cerr error
+			oc := lib.Guard(func() { files, cerr = fit.DecodeChained(bytes.NewReader(chain)) })
+			c.Eval()
+			if oc.Panicked {
+				c.Violation(chain, "DecodeChained panicked on a chain (shape %d) with a member of file type %d: %s", k, v, oc.Panic)
+				continue
+			}
+			if cerr == nil {
+				c.Violation(chain, "DecodeChained returned no error for a chain (shape %d) with a member whose file_id.type %d has no container (%d files returned)", k, v, len(files))
+			}
+			for _, ff := range files {
+				if ff == nil || ff.Type() != fit.FileType(v) {
+					continue
+				}
+				ct := lib.FileContent(ff)
+				for i := range ct.AccessorOK {
+					if ct.AccessorNonNil[i] {
+						c.Violation(chain, "chain member of file type %d: accessor %s returned a container", v, lib.FileTypes[i].Name)
+					}
+				}
+			}
+			c.Count("rejected_types_inside_chains", 1)
 		}
 		c.Count("rejected_types", 1)
 		c.Nontrivial([]byte{v})
